@@ -31,6 +31,8 @@ func checkC02(c *Ctx, r *Report) {
 	c02Promoted(c, r)
 	c02Layout(c, r, a)
 	c02SharedDefaults(c, r, a)
+	c02BindArm(c, r, a)
+	c02ValErr(c, r, a)
 	cacheVerdictRule(c, r, a, "C02.CACHE", "the reflection strategy then answers with an error (and null) for a node whose GraphQL type was first seen with another Go type, where the interface and root-resolver strategies answer with the data")
 }
 
@@ -655,4 +657,101 @@ func c02SharedDefaults(c *Ctx, r *Report, a *Anchors) {
 			"this arm substitutes the declared default for an omitted argument although the shared argument builder does not: a reflected method is called with the default while the interface and root resolvers are called without the argument")
 	}
 	r.floor("C02.DEFAULTS", "strategy-specific argument code examined", n, 1)
+}
+
+// c02BindArm: the lazily cached Go type of an object type (Object.meta) is a fact about the reflection
+// strategy: it is what reflection looks fields and methods up in. At request time it may be written only
+// where reflection is the strategy in use - inside the reflection resolver, or in the type dispatcher's union
+// arm (whose comparison needs it for every strategy and which binds by name, not by first sight). A write
+// made for every resolved object records the Go type of whatever node is met first, a Resolver-backed
+// one included, and plain structs of the same GraphQL type are then looked up in the wrong Go type.
+func c02BindArm(c *Ctx, r *Report, a *Anchors) {
+	r.rule("C02.BINDARM", "who-may-call: request-time callers of the functions that write Object.meta are the reflection resolver and the type dispatcher only")
+	writers := map[*ssa.Function]bool{}
+	for _, fn := range c.allFns {
+		for _, b := range fn.Blocks {
+			for _, in := range b.Instrs {
+				if st, ok := in.(*ssa.Store); ok {
+					if fa, ok := st.Addr.(*ssa.FieldAddr); ok {
+						if o, f := fieldOwner(fa.X.Type(), fa.Field); o == "Object" && f == "meta" {
+							writers[fn] = true
+						}
+					}
+				}
+			}
+		}
+	}
+	var fns []*ssa.Function
+	for f := range a.reach {
+		if c.inPkg(f) {
+			fns = append(fns, f)
+		}
+	}
+	sort.Slice(fns, func(i, j int) bool { return fnName(fns[i]) < fnName(fns[j]) })
+	n := 0
+	for _, fn := range fns {
+		if writers[fn] {
+			continue
+		}
+		k := 0
+		for _, ci := range callsIn(fn) {
+			cal := ci.Common().StaticCallee()
+			if cal == nil || !writers[cal] {
+				continue
+			}
+			n++
+			k++
+			ok := fn == a.reflectRes || fn == a.dispatch
+			r.check("C02.BINDARM", fmt.Sprintf("%s: call #%d of %s is made on the reflection strategy only", fnName(fn), k, fnName(cal)), ci.Pos(), ok,
+				"the Go-type binding is written for every object this function handles, whichever strategy backs it: a node implementing Resolver that is met first binds its Go type to the GraphQL type, and plain structs of that type then resolve to nulls with 'is not a field of' errors - only in graphs that mix strategies")
+		}
+	}
+	r.floor("C02.BINDARM", "request-time calls of the binding writers", n, 2)
+}
+
+// c02ValErr: sibling agreement of the three invocation arms on a value that comes back together with an
+// error: all keep it or all drop it (C06.G4 records that today all three keep it).
+func c02ValErr(c *Ctx, r *Report, a *Anchors) {
+	r.rule("C02.VALERR", "the Resolver, AnyResolver and reflection invocations agree on whether a value returned together with an error flows on")
+	type arm struct {
+		desc    string
+		pos     token.Pos
+		dropped bool
+	}
+	var arms []arm
+	for _, fn := range []*ssa.Function{a.field, a.reflectRes} {
+		if fn == nil {
+			continue
+		}
+		for _, ci := range callsIn(fn) {
+			call, ok := ci.(*ssa.Call)
+			if !ok || !c.isResolverInvoke(call) {
+				continue
+			}
+			val, errv := extractOf(call, 0), extractOf(call, 1)
+			if tup, ok := call.Type().(*types.Tuple); !ok || tup.Len() != 2 {
+				val, errv = nil, nil
+			}
+			if val == nil || errv == nil {
+				okp, _, _ := c06ReflectPair(call)
+				arms = append(arms, arm{fnName(fn) + ": " + calleeDesc(call), call.Pos(), okp})
+				continue
+			}
+			d, _ := valueDroppedOnError(val, errv)
+			arms = append(arms, arm{fnName(fn) + ": " + calleeDesc(call), call.Pos(), d})
+		}
+	}
+	nd := 0
+	for _, x := range arms {
+		if x.dropped {
+			nd++
+		}
+	}
+	for _, x := range arms {
+		agree := nd == 0 || nd == len(arms)
+		minority := x.dropped == (nd*2 < len(arms))
+		r.check("C02.VALERR", x.desc+": treats a value returned with an error like the other strategies", x.pos, agree || !minority,
+			fmt.Sprintf("this arm %s the value while the others do not (%d of %d drop it): the same data answers with the value under one strategy and with null under another", map[bool]string{true: "drops", false: "keeps"}[x.dropped], nd, len(arms)))
+	}
+	r.floor("C02.VALERR", "resolver invocations compared", len(arms), 3)
 }
